@@ -338,7 +338,7 @@ func adminCmd(r *mon.Rng, st *state) string {
 		small := []string{"0", "1", "2", "10", "1000"}
 		switch r.Intn(3) {
 		case 0:
-			return fmt.Sprintf("addRoute grafanaNet %s  http://127.0.0.1:%d/metrics apikey %s %s", k, st.deadPort, st.schemas, st.aggconf) +
+			return fmt.Sprintf("addRoute grafanaNet %s  %s apikey %s %s", k, gnetAddr(r, st.deadPort), st.schemas, st.aggconf) +
 				opt("concurrency", small) + opt("bufSize", small) + opt("flushMaxNum", small) + opt("flushMaxWait", small) + opt("timeout", small) +
 				opt("orgId", []string{"1", "2", "0"}) + opt("blocking", []string{"false", "false", "false", "true"}) + opt("errBackoffMin", small) + opt("errBackoffFactor", []string{"1.5", "0", "1", "x"})
 		case 1:
@@ -356,6 +356,18 @@ func adminCmd(r *mon.Rng, st *state) string {
 	default:
 		return "view"
 	}
+}
+
+// gnetAddr draws the address of a grafanaNet route: mostly the documented forms, now and then a URL whose path
+// is a /metrics endpoint but whose text is not (query, fragment, escapes, doubled slashes), or no endpoint at all.
+func gnetAddr(r *mon.Rng, port int) string {
+	base := fmt.Sprintf("http://127.0.0.1:%d", port)
+	if r.Chance(3, 5) {
+		return base + r.Pick([]string{"/metrics", "/metrics", "/metrics/", "/graphite/metrics", "/graphite/metrics/"})
+	}
+	return r.Pick([]string{base + "/metrics?x=1", base + "/metrics?", base + "/metrics#frag", base + "/metrics/?a=b", base + "/%6detrics",
+		base + "/metrics//", base + "/metrics/%2F", base + "/metric", base, base + "/", "http:///metrics", "127.0.0.1/metrics", "https://[::1]:1/metrics",
+		base + "/a/../metrics", base + "/graphite/metrics;v=1", "http://user:pw@127.0.0.1:1/metrics", base + "/metrics%3Fx", "HTTP://127.0.0.1:1/METRICS"})
 }
 
 // ---------------------------------------------------------------- config
@@ -464,6 +476,15 @@ func genConfig(r *mon.Rng, dir string, p ports, st *state) string {
 			fmt.Fprintf(&b, "  %s,\n", q(strings.TrimSpace(addr+" "+opts)))
 		}
 		b.WriteString("]\n")
+	}
+	if r.Chance(1, 5) {
+		// a grafanaNet route from the file (dead endpoint: posts fail and are retried, nothing else happens)
+		st.routes = append(st.routes, "gnet")
+		fmt.Fprintf(&b, "[[route]]\nkey = \"gnet\"\ntype = \"grafanaNet\"\naddr = %s\napikey = \"k\"\nschemasFile = %s\naggregationFile = %s\n", q(gnetAddr(r, st.deadPort)), q(st.schemas), q(st.aggconf))
+		if r.Bool() {
+			fmt.Fprintf(&b, "concurrency = %d\nbufSize = %d\nflushMaxNum = %d\nflushMaxWait = %d\ntimeout = %d\n",
+				r.PickInt([]int{1, 2, 10, 0, -1}), r.PickInt([]int{0, 1, 1000, 1000, -1}), r.PickInt([]int{1, 10, 1000, 0}), r.PickInt([]int{1, 100, 500, 0, -1}), r.PickInt([]int{1, 100, 10000, 0}))
+		}
 	}
 	if r.Chance(1, 6) {
 		// a cloudWatch route (only configurable from the file): publishing fails offline, its buffer, ticker and
